@@ -56,6 +56,8 @@ let handle mode op args =
   | "fq", [fl; ind; a] -> out_bytes (dump_format_query d (mk_fopts (bytes_of_hex fl) (bytes_of_hex ind)) (bytes_of_hex a))
   | "fs", [fl; ind; bi; a] ->
       out_bytes (dump_format_schema d (mk_fopts (bytes_of_hex fl) (bytes_of_hex ind)) (str_of_hex bi = "1") (bytes_of_hex a))
+  | "fsl", fl :: ind :: srcs ->
+      out_bytes (dump_format_loaded d (mk_fopts (bytes_of_hex fl) (bytes_of_hex ind)) (prelude mode) (List.map bytes_of_hex srcs))
   | "load", srcs -> out_bytes (dump_load_with d (prelude mode) (List.map bytes_of_hex srcs))
   | "val", rules :: q :: srcs ->
       out_bytes (dump_validate_with d (prelude mode) (bytes_of_hex rules) (bytes_of_hex q) (List.map bytes_of_hex srcs))
